@@ -26,6 +26,7 @@ namespace c18 {
 Outcome scen_objfn(const sim::Plan& p, int threads, const sc::Params& sp) { return scen_objfn_impl(p, threads, sp); }
 Outcome scen_norm(const sim::Plan& p, int threads, const sc::Params& sp) { return scen_norm_impl(p, threads, sp); }
 Outcome scen_scatter(const sim::Plan& p, int threads, const sc::Params& sp) { return scen_scatter_impl(p, threads, sp); }
+Outcome scen_array(const sim::Plan& p, int threads, const sc::Params& sp) { return scen_array_impl(p, threads, sp); }
 }
 #endif
 
